@@ -67,8 +67,8 @@ struct ListInfo
     static constexpr std::array<bool, N> tracked{is_tracked_v<typename PInfo<P>::T>...};
     static constexpr std::array<bool, N> stamped{std::is_same_v<typename PInfo<P>::T, Stamped>...};
     static constexpr bool ANY_STAMPED = (std::is_same_v<typename PInfo<P>::T, Stamped> || ...);
-    // arithmetic value types (not bool): their spans can be emplaced from ranges of other arithmetic types
-    static constexpr std::array<bool, N> convertible{(std::is_arithmetic_v<typename PInfo<P>::T> && !std::is_same_v<typename PInfo<P>::T, bool>)...};
+    // arithmetic value types: their spans can be emplaced from ranges of other arithmetic types
+    static constexpr std::array<bool, N> convertible{std::is_arithmetic_v<typename PInfo<P>::T>...};
 
     static constexpr std::size_t count_kind(PK k)
     {
